@@ -31,7 +31,9 @@ def expr_of(case):
                 break
             beh.append(["fut", "src", combo.src(i)])
         return ["f_traverse", beh, list(range(len(case["args"]))), "iter" if case.get("iter") else "list"]
-    return [comb] + [["src", combo.src(i)] for i in case["args"]]
+    # (an input may be handed over wrapped in f_proxy: transparent for results, failures and cancel requests)
+    prox = set(case.get("proxied", ()))
+    return [comb] + [["f_proxy", ["src", combo.src(i)]] if i in prox else ["src", combo.src(i)] for i in case["args"]]
 
 
 def model(case, lin):
@@ -75,7 +77,7 @@ def evaluate(case):
         return viols, info
     cons = obs["construct"]
     if cons["result"][0] != "ok":
-        bad("constructor-raised:%s" % cons["result"][1], result=cons["result"])
+        bad("constructor-raised:%s" % (cons["result"][1] if len(cons["result"]) > 1 else cons["result"][0]), result=cons["result"])
         return viols, info
     for rec in obs["logs"]:
         if rec[3] in ("KeyError", "AssertionError", "InvalidStateError", "TypeError", "AttributeError", "IndexError"):
@@ -263,7 +265,8 @@ def case_strategy():
         if draw(st.integers(0, 3)) == 0:
             t = draw(st.integers(0, nthreads - 1))
             threads[t].insert(draw(st.integers(0, len(threads[t]))), ["x"])
-        return {"comb": comb, "n": n, "args": args, "predone": pre, "threads": threads,
+        proxied = sorted(set(draw(st.lists(st.integers(0, n - 1), max_size=2)))) if comb != "f_traverse" and draw(st.integers(0, 2)) == 0 else []
+        return {"comb": comb, "n": n, "args": args, "predone": pre, "threads": threads, "proxied": proxied,
                 "tape": draw(gen.tapes(6)), "clock": "exact", "iter": draw(st.booleans())}
 
     return cases()
